@@ -216,7 +216,7 @@ func init() {
 			nC := c.field("pendingQueue", "nChunks")
 			n := 0
 			for _, f := range []string{"policy", "interleaving"} {
-				for _, a := range c.storesIn(si, c.field("pendingQueue", f)) {
+				for _, a := range c.storesInRegion(si, c.field("pendingQueue", f)) {
 					n++
 					c.Dom(fmt.Sprintf("switch-when-empty:%s#%d", f, n), a.Instr, CmpCond(token.EQL, IsLoadOf(nC), IsConstInt(0)), "nChunks == 0")
 				}
